@@ -91,7 +91,7 @@ PROPS = {
     },
     'C11': {
         'verus': [r'^(date|timestamp|oracle) :: impl Round for (Date|Timestamp) / fn round_',
-                  r'^spec :: proof fn lemma_(round_units|round_carry|iso_year_jan4|round_)', r'^laws :: fn law_c11_'],
+                  r'^spec :: proof fn lemma_(round_units|round_carry|iso_year_jan4|round_|trunc_.*_greatest|iso_)', r'^laws :: fn law_c11_'],
         'kinds': FUNCTIONAL,
     },
     'C12': {
